@@ -10,6 +10,9 @@
 //!     by foreign bytes gives the same result (only evaluated when the declared
 //!     length fits the buffer).
 //!
+//! Numbers are printed for `uint63_scope` (coq/Base/Lit.v): byte strings as
+//! `(b7 len [7 octets per literal])`, other integers as `(zi k)`.
+//!
 //! usage: c04 --seed S --count N [--start K] [--only I] <stream>
 //!   stream = sweep | struct | random | sweep16
 use statime::fuzz::FuzzMessage;
@@ -282,7 +285,7 @@ fn tlv_layout(r: &mut Rng, kind: u64) -> (Vec<u8>, &'static str) {
             (v, "several")
         }
         3 => {
-            // last TLV with an empty value (F5), possibly after others
+            // last TLV with an empty value (rejected before the repair of F5), possibly after others
             let mut v = vec![];
             for _ in 0..r.below(3) {
                 let l = even(r);
@@ -400,6 +403,19 @@ fn frame(r: &mut Rng, t: u8, plain: bool) -> Frame {
 // ---------------------------------------------------------------------------
 // observation
 
+/// byte string literal `(b7 len [7 octets per primitive-integer literal])` (Wire/WireCases.v)
+fn b7(b: &[u8]) -> String {
+    let mut lits = Vec::with_capacity(b.len() / 7 + 1);
+    for ch in b.chunks(7) {
+        let mut v: u64 = 0;
+        for i in 0..7 {
+            v = (v << 8) | (*ch.get(i).unwrap_or(&0) as u64);
+        }
+        lits.push(v.to_string());
+    }
+    format!("(b7 {} [{}])", b.len(), lits.join("; "))
+}
+
 fn err_kind(s: &str) -> &'static str {
     match s {
         "enum conversion failed" => "EEnumConversion",
@@ -489,7 +505,7 @@ fn probe(m: &FuzzMessage, size: usize) -> String {
         Some(Err(e)) => format!("(PErr {})", err_kind(&e)),
         Some(Ok(n)) => {
             if n <= size {
-                format!("(PBytes {})", bytes_coq(&buf[..n]))
+                format!("(PBytes {})", b7(&buf[..n]))
             } else {
                 "(PErr ECapacity)".to_string() // returned length exceeds the buffer: never expected
             }
@@ -532,7 +548,7 @@ fn observe(b: &[u8], r: &mut Rng) -> (String, String) {
                 .tlv()
                 .map(|t| {
                     let (c, l) = tlv_summary(&format!("{:?}", t));
-                    format!("({}, {})", z(c), z(l))
+                    format!("(zi {}, zi {})", svh::n(c), svh::n(l))
                 })
                 .collect();
             // other buffer sizes
@@ -550,7 +566,7 @@ fn observe(b: &[u8], r: &mut Rng) -> (String, String) {
             }
             let probes: Vec<String> = sizes
                 .iter()
-                .map(|s| format!("({}, {})", s, probe(&m, *s)))
+                .map(|s| format!("(zi {}, {})", s, probe(&m, *s)))
                 .collect();
             (
                 Dec::Ok,
@@ -578,7 +594,7 @@ fn observe(b: &[u8], r: &mut Rng) -> (String, String) {
 fn case(kind: &str, b: Vec<u8>, r: &mut Rng) -> (String, String) {
     let tn = if b.is_empty() { "empty" } else { tname(b[0]) };
     let (o, term) = observe(&b, r);
-    (format!("{}:{}:{}", kind, tn, o), format!("({}, {})", bytes_coq(&b), term))
+    (format!("{}:{}:{}", kind, tn, o), format!("({}, {})", b7(&b), term))
 }
 
 // ---------------------------------------------------------------------------
